@@ -61,13 +61,18 @@ def content(size, cseed):
     return hashlib.shake_128(b"c19-%d" % cseed).digest(size)
 
 
-def runp(argv, cwd, env=None, timeout=120, stdin=None):
+def runp(argv, cwd, env=None, timeout=120, stdin=None, nofile=None):
     e = dict(os.environ)
     e.pop("LD_PRELOAD", None)
     if env:
         e.update(env)
+    pre = None
+    if nofile:
+        def pre():
+            import resource
+            resource.setrlimit(resource.RLIMIT_NOFILE, (nofile, nofile))
     try:
-        p = subprocess.run(argv, cwd=cwd, env=e, stdout=subprocess.PIPE, stderr=subprocess.PIPE, timeout=timeout, stdin=subprocess.DEVNULL if stdin is None else stdin)
+        p = subprocess.run(argv, cwd=cwd, env=e, stdout=subprocess.PIPE, stderr=subprocess.PIPE, timeout=timeout, stdin=subprocess.DEVNULL if stdin is None else stdin, preexec_fn=pre)
     except subprocess.TimeoutExpired:
         return -998, b"", b"timeout"
     return p.returncode, p.stdout, p.stderr
@@ -585,6 +590,20 @@ def check_sum_case(T, sc, stats):
             if rc != 0 or so.decode("utf-8", "replace") != wantc:
                 return ("asconsum -c on unmodified files, list %s%s, printed %r (rc=%d)" % (["", "without a final newline", "with CR LF line ends", "with CR LF line ends and no final newline"][shape],
                         " on standard input" if sc["mod"]["pos"] & 4 else "", so.decode("utf-8", "replace")[:200], rc), {"step": "check-ok-shape"})
+        # a long list under a small open-file limit (every file the tool opens it closes again): the same entries many times over
+        if sc["mod"]["pos"] & 8:
+            reps = 40 // len(names) + 1
+            with open(os.path.join(wd, "digests3.ascon"), "w") as f:
+                f.write(want * reps)
+            if sc["mod"]["pos"] & 16:
+                with open(os.path.join(wd, "digests3.ascon"), "rb") as fin:
+                    rc, so, se = runp([T["asconsum"]] + ([flag] if flag else []) + ["-c"], wd, stdin=fin, nofile=16)
+            else:
+                rc, so, se = runp([T["asconsum"]] + ([flag] if flag else []) + ["-c", "digests3.ascon"], wd, nofile=16)
+            stats["runs"] += 1
+            if rc != 0 or so.decode("utf-8", "replace") != wantc * reps:
+                return ("asconsum -c on a list of %d unmodified entries%s with at most 16 open files: rc=%d, %d of %d reported OK, stderr %r"
+                        % (reps * len(names), " on standard input" if sc["mod"]["pos"] & 16 else "", rc, so.decode("utf-8", "replace").count(": OK"), reps * len(names), se.decode("utf-8", "replace")[-160:]), {"step": "check-ok-many"})
         # modify according to the scenario
         m = sc["mod"]
         victim = m["victim"] % len(names)
